@@ -47,6 +47,7 @@ pub struct Obs {
     pub unemitted_at_error: usize,
     pub site: Option<String>,
     pub bailed: bool,
+    pub marker_position_checked: bool,
     pub dup_exception: bool,
     pub kind: String,
 }
@@ -124,6 +125,24 @@ pub fn check(cfg: &Config, input: &[u8], cuts: &[usize], complete: &RunResult) -
     let nb = if end_handler_failed && bails.is_empty() { 0 } else { bail_ids.len() };
     if ids.len() < nb || ids[ids.len() - nb..] != bail_ids[..nb] {
         return Err(("bail-out-markers-misplaced".into(), format!("ids in the sink {ids:?} do not end with the bail-out handlers' markers {bail_ids:?}{}", ctxs())));
+    }
+    // order in the sink: [output for the processed prefix][bail-out markers][raw remainder]. What had been emitted when the
+    // error struck is taken from a twin run with both graceful flags off (it stops at the same point and flushes nothing):
+    // the markers must follow exactly there, i.e. before any byte of the raw flush.
+    if nb > 0 && !end_handler_failed {
+        let mut twin = cfg.clone();
+        twin.graceful_mem = false;
+        twin.graceful_handler = false;
+        let r2 = engine::run(&twin, input, cuts).map_err(|e| ("harness".to_string(), e))?;
+        let p = r2.out();
+        let markers: Vec<u8> = bail_ids.iter().flat_map(|b| format!("{OPEN}{b}{CLOSE}").into_bytes()).collect();
+        if r2.final_res() == res && !(out.starts_with(&p) && out[p.len()..].starts_with(&markers)) {
+            return Err((
+                "bail-out-markers-not-before-the-raw-flush".into(),
+                format!("the content appended by the bail-out handlers does not directly follow what had been emitted when the error struck ({} bytes, from the same run without graceful flags): the raw remainder must come after it{}\n sink: {}", p.len(), ctxs(), show(&out)),
+            ));
+        }
+        o.marker_position_checked = true;
     }
     let pre = &ids[..ids.len() - nb];
     if !complete_ids.starts_with(pre) {
@@ -280,7 +299,7 @@ impl Prop for C11 {
         "fault_enumeration"
     }
     fn rule(&self) -> String {
-        "for each (input, schedule, handler set: observers or id-inserting handlers, 0-3 bail-out handlers) a dry run counts the N handler invocations, then ONE RUN PER FAILURE INDEX 1..N (all for N <= 120, sampled above) with every combination of the two graceful flags; independently the memory limit is swept over every value for growth-shaped inputs so that append / parse(stack push) / init_with / end() fail; oracle: sink ++ unwritten input with ids stripped == input, ids = prefix of the complete run's ids then bail-out markers then none, bail-out handlers exactly once in order, flag separation, no recovery from ParsingAmbiguity; documented exceptions recognised precisely (duplicated segment of a partly emitted text node); non-trivial: an error was returned and >= 1 byte was unemitted at that moment; distinct = hash(input, schedule, config, failure point)".into()
+        "for each (input, schedule, handler set: observers or id-inserting handlers, 0-3 bail-out handlers) a dry run counts the N handler invocations, then ONE RUN PER FAILURE INDEX 1..N (all for N <= 120, sampled above) with every combination of the two graceful flags; independently the memory limit is swept over every value for growth-shaped inputs so that append / parse(stack push) / init_with / end() fail; oracle: sink ++ unwritten input with ids stripped == input, ids = prefix of the complete run's ids then bail-out markers then none, bail-out handlers exactly once in order and their content directly after what the same run without graceful flags had emitted (before the raw remainder), flag separation, no recovery from ParsingAmbiguity; documented exceptions recognised precisely (duplicated segment of a partly emitted text node); non-trivial: an error was returned and >= 1 byte was unemitted at that moment; distinct = hash(input, schedule, config, failure point)".into()
     }
     fn assumptions(&self) -> Vec<String> {
         vec![
@@ -505,6 +524,9 @@ impl C11 {
             }
             if o.dup_exception {
                 ctx.count("documented_text_duplicate_exception");
+            }
+            if o.marker_position_checked {
+                ctx.count("bail_out_marker_position_checked");
             }
             if o.bailed && o.unemitted_at_error > 0 {
                 ctx.nontrivial(mix(mix(fnv(input), fnv(format!("{cuts:?}{:?}{:?}", c.fail_at, c.max_mem).as_bytes())), fnv(serde_json::to_string(c).unwrap().as_bytes())));
